@@ -142,7 +142,8 @@ def keys (t : Table) : List Name := t.map (·.1)
 
 /-- router state visible to registration and dispatch.  `groups` holds the `prefix` field of every
     `SubRouter` created so far (index 0 is the root).  `unkCall`/`unkPush` are
-    `*peer.router.subRouter.unknownCall` / `unknownPush`, the slots `getCall`/`getPush` read. -/
+    `*peer.router.subRouter.unknownCall` / `unknownPush`, the slots `getCall`/`getPush` read; the
+    `**Handler` pointing at them is allocated once in `newRouter` and shared by every `SubRouter`. -/
 structure State where
   mkind : MapperKind
   groups : List Name
@@ -178,7 +179,8 @@ inductive Op
   | routeStruct (k : Kind) (g : Nat) (sname : Name) (methods : List (Name × Hid))
   /-- `groups[g].RouteCallFunc(f)` / `RoutePushFunc`. -/
   | routeFunc (k : Kind) (g : Nat) (fname : Name) (h : Hid)
-  /-- `SetUnknownCall` / `SetUnknownPush` on the root router (`g = 0`) or on `groups[g].ToRouter()`. -/
+  /-- `SetUnknownCall` / `SetUnknownPush` on the root router (`g = 0`) or on `groups[g].ToRouter()`;
+      both write the peer's one shared slot. -/
   | setUnknown (k : Kind) (g : Nat) (h : Hid)
   deriving DecidableEq, Repr
 
@@ -250,9 +252,9 @@ def step (s : State) : Op → Except Err (State × List Name)
     match s.groups[g]? with
     | none => .error .badRef
     | some _ =>
-      -- `r.subRouter.unknownCall = &h` replaces the pointer held by *that* SubRouter value; only
-      -- the root SubRouter is the one sessions look routes up in.
-      if g = 0 then .ok (s.setUnk k h, []) else .ok (s, [])
+      -- `*r.subRouter.unknownCall = h` writes through the `**Handler` that `newRouter` allocated
+      -- and every `SubRoute` copied: one slot per peer, whichever router the call goes through.
+      .ok (s.setUnk k h, [])
 
 /-- a whole registration history; returns the final state and what every operation returned. -/
 def run : State → List Op → Except Err (State × List (List Name))
